@@ -11,6 +11,7 @@ import typing
 from pathlib import Path
 from typing import Optional, Tuple
 
+from jedi import _verif
 from jedi.inference.compiled.getattr_static import getattr_static
 
 ALLOWED_GETITEM_TYPES = (str, list, tuple, bytes, bytearray, dict)
@@ -115,6 +116,8 @@ def create_access(inference_state, obj):
 
 
 def load_module(inference_state, dotted_name, sys_path):
+    if _verif.ON:
+        _verif.trace('ExecImport', dotted=dotted_name, sys_path=[str(p) for p in sys_path])
     temp, sys.path = sys.path, sys_path
     try:
         __import__(dotted_name)
@@ -407,6 +410,8 @@ class DirectObjectAccess:
         else:
             if module is not None and isinstance(module, str):
                 try:
+                    if _verif.ON:
+                        _verif.trace('ExecImportOfObjectModule', dotted=module)
                     __import__(module)
                     # For some modules like _sqlite3, the __module__ for classes is
                     # different, in this case it's sqlite3. So we have to try to
